@@ -3,9 +3,16 @@
    limit are rejected; a folded field value never exceeds max_field_size. *)
 From Coq Require Import ZifyBool ZifyN.
 From AV Require Import Lib.Base Lib.BytesX Lib.Utf8Decode Generated.HttpGen Generated.HttpRespGen Model.Http Model.HttpResp
-  Proofs.HttpSegBase Proofs.HttpLimits Proofs.HttpRespBase Proofs.HttpRespChunk Proofs.HttpRespSeg.
+  Proofs.HttpSegBase Proofs.HttpRespBase Proofs.HttpRespChunk Proofs.HttpRespSeg.
 Ltac Zify.zify_post_hook ::= Z.to_euclidean_division_equations.
 Open Scope N_scope.
+
+(* max(max_line_size, max_field_size); own copy so that this file does not depend on the request-side limits proofs *)
+Definition rbig (lim : limits) : N := N.max (max_line lim) (max_field lim).
+
+Lemma rlimit_le_big lim (ls : list bytes) :
+  match ls with [] => max_line lim | _ => max_field lim end <= rbig lim.
+Proof. unfold rbig. destruct ls; lia. Qed.
 
 (* trailer lines collected so far: at most max_trailers (<= max_headers), each within max_field_size;
    buffered partial chunk-size / trailer line: at most 2 * max(max_line, max_field) + n bytes,
@@ -14,11 +21,11 @@ Definition tl_bounded (lim : limits) (mt : N) (tl : list bytes) : Prop :=
   lenN tl <= mt /\ mt <= max_headers lim /\ Forall (fun l => lenN l <= max_field lim) tl.
 
 Definition pbounded (lim : limits) (n : N) (p : rpstate) : Prop :=
-  lenN (rctail p) <= 2 * big lim + n /\ tl_bounded lim (rmax_trailers p) (rtlines p).
+  lenN (rctail p) <= 2 * rbig lim + 2 + n /\ tl_bounded lim (rmax_trailers p) (rtlines p).
 
 Definition rbounded (lim : limits) (n : N) (s : rst) : Prop :=
-  lenN (rtail s) <= big lim /\ lenN (rlines s) <= max_headers lim /\
-  Forall (fun l => lenN l <= big lim) (rlines s) /\
+  lenN (rtail s) <= rbig lim + 1 /\ lenN (rlines s) <= max_headers lim /\
+  Forall (fun l => lenN l <= rbig lim) (rlines s) /\
   match rpayload s with Some p => pbounded lim n p | None => True end.
 
 Lemma rbounded_init lim n : rbounded lim n rinit.
@@ -39,7 +46,7 @@ Proof.
   - repeat (dmH H; try discriminate); inj_inl H; exact Ht.
   - repeat (dmH H; try discriminate); inj_inl H; exact Ht.
   - destruct (find_lf (a :: r)) as [[raw rest]|]; [|discriminate].
-    destruct (max_field lim <? lenN (rstrip_cr raw)) eqn:E1; [discriminate|].
+    destruct (max_field lim <? len1 raw) eqn:E1; [discriminate|]. pose proof (rstrip_cr_le_len1 raw) as Hrl.
     destruct (mt <? lenN (tl ++ [rstrip_cr raw])) eqn:E2; [discriminate|].
     destruct (rstrip_cr raw) as [|l0 l] eqn:El; [repeat (dmH H; try discriminate)|].
     inj_inl H. cbn [fst snd]. destruct Ht as (A & B & C). repeat split; [lia|exact B|].
@@ -70,12 +77,13 @@ Proof.
   unfold meas, rmu_c in Hm. cbn [fst] in Hm. destruct ck, (fst (fst s)); lia.
 Qed.
 
-Lemma rtoo_long_false_len lim p : rwfp p -> rtoo_long lim p = false -> lenN (rctail p) <= big lim.
+Lemma rtoo_long_false_len lim p : rwfp p -> rtoo_long lim p = false -> lenN (rctail p) <= rbig lim + 1.
 Proof.
-  unfold rwfp, rtoo_long, big. intros Hw H.
+  unfold rwfp, rtoo_long, rbig. intros Hw H.
   destruct (rpk p) as [rem|c|].
   - destruct Hw as (_ & -> & _). unfold lenN. cbn. lia.
   - destruct (rctail p) as [|t0 t] eqn:Et; [unfold lenN; cbn; lia|].
+    pose proof (lenN_le_len1 (t0 :: t)).
     destruct c; cbn [rwfc] in Hw; try (destruct Hw as [_ Hw]); try discriminate; lia.
   - destruct Hw as (-> & _). unfold lenN. cbn. lia.
 Qed.
@@ -83,7 +91,7 @@ Qed.
 Lemma rfeed_payload_need_bounds lim p x evs p' e1 n : rwfp p ->
   tl_bounded lim (rmax_trailers p) (rtlines p) ->
   rfeed_payload lim p x evs = QNeed p' e1 ->
-  lenN x <= big lim + n ->
+  lenN x <= rbig lim + 1 + n ->
   pbounded lim n p'.
 Proof.
   intros Hw Ht H Hx. pose proof Hw as Hw0. unfold rwfp in Hw. destruct (rpk p) as [rem|c|] eqn:Ek.
@@ -94,9 +102,8 @@ Proof.
   - rewrite (rfeed_payload_chunked _ _ _ _ _ Ek) in H.
     destruct (rtoo_long lim p) eqn:Et; [discriminate|].
     pose proof (rtoo_long_false_len lim p Hw0 Et) as Hl.
-    apply rwfc_unpark in Hw.
     pose proof (rwfc_cwf _ _ (rtlines p) evs Hw) as Hc.
-    destruct (rcloop_need_bounds lim (rmax_trailers p) _ (unpark c, rtlines p, evs) _ p' e1
+    destruct (rcloop_need_bounds lim (rmax_trailers p) _ (c, rtlines p, evs) _ p' e1
                 (conj Hc Ht) (rmeas_c_fuel _ _ _ _) H) as (A & B & C).
     unfold pbounded. rewrite B. split; [|exact C].
     rewrite app_length in A. unfold lenN in *. lia.
@@ -125,7 +132,7 @@ Proof.
 Qed.
 
 Definition rlines_ok (lim : limits) (s : rst) : Prop :=
-  lenN (rlines s) <= max_headers lim /\ Forall (fun l => lenN l <= big lim) (rlines s).
+  lenN (rlines s) <= max_headers lim /\ Forall (fun l => lenN l <= rbig lim) (rlines s).
 
 Definition rinv_b (lim : limits) (n : N) (se : rfcfg) : Prop :=
   rinv_f se /\ rlines_ok lim (fst se) /\
@@ -156,13 +163,14 @@ Proof.
     + destruct (rlines s) as [|l1 ls] eqn:El.
       * inj_inl H. cbn [fst]. rewrite Ep. split; [exact Hl|exact I].
       * repeat (dmH H; try discriminate); inj_inl H; cbn [fst]; eapply Hsm; eassumption.
-    + remember (rstrip_cr (l0 :: raw)) as line eqn:Eline.
+    + pose proof (rstrip_cr_le_len1 (l0 :: raw)) as Hrl.
+      remember (rstrip_cr (l0 :: raw)) as line eqn:Eline.
       repeat (dmH H; try discriminate); inj_inl H; cbn [fst];
         first [ eapply Hsm; eassumption
               | split; [|exact I]; destruct Hl as [A B]; split; cbn [rlines];
                 [ lia
                 | apply Forall_app; split; [exact B|]; constructor; [|constructor];
-                  pose proof (limit_le_big (c_lim cfg) (rlines s)); lia ] ].
+                  pose proof (rlimit_le_big (c_lim cfg) (rlines s)); lia ] ].
 Qed.
 
 Lemma rfeed_bounded cfg s d a s' a' lo n :
@@ -181,7 +189,7 @@ Proof.
   destruct (stopcfg_stop _ _ (rstep_f cfg) rfdflt rmu_f (rinv_b lim n') (rstep_f_dec_b cfg n') _ _ _
               Hi (rmeas_f_fuel _ _) _ _ E) as (((Htk & Hpk) & (Hlk1 & Hlk2) & Hbk) & Hm & r & Hs & Hr).
   unfold rfloop in H. rewrite H in Hr. subst r. cbn [fst] in *.
-  assert (Hlen : lenN xk <= big lim + n').
+  assert (Hlen : lenN xk <= rbig lim + 1 + n').
   { unfold meas, rmu_f in Hm. cbn [fst] in Hm. rewrite app_length in Hm.
     assert (length xk <= length (rtail s) + length d)%nat by (destruct (rpayload sk), (rpayload (rclr s)); lia).
     unfold lenN in *. lia. }
@@ -203,7 +211,7 @@ Proof.
     destruct (find_lf (x0 :: xk')) as [[raw rest]|].
     { exfalso. repeat (dmH Hs; try discriminate). }
     dmH Hs; [discriminate|]. inversion Hs; subst. unfold rbounded. cbn [rtail rlines rpayload].
-    pose proof (limit_le_big lim (rlines sk)).
+    pose proof (rlimit_le_big lim (rlines sk)). pose proof (lenN_le_len1 (x0 :: xk')).
     split; [|split; [|split]]; [lia|assumption|assumption|exact I].
 Qed.
 
@@ -235,19 +243,19 @@ Proof.
 Qed.
 
 (* ------------------------------------------------------------------ limits are enforced *)
-(* a complete line whose content (trailing CRs removed) is over its limit: LineTooLong *)
+(* a complete line whose measured length (its last CR not counted) is over its limit: LineTooLong *)
 Lemma rheader_line_too_long cfg f s buf a raw rest :
   rpayload s = None -> rupgraded s = false -> max_queue (c_lim cfg) = 0 -> rshould_close s = false ->
   find_lf buf = Some (raw, rest) -> buf <> [] ->
-  match rlines s with [] => max_line (c_lim cfg) | _ => max_field (c_lim cfg) end < lenN (rstrip_cr raw) ->
+  match rlines s with [] => max_line (c_lim cfg) | _ => max_field (c_lim cfg) end < len1 raw ->
   rfeed_loop (S f) cfg s buf a = (s, a, OErr ELineTooLong).
 Proof.
   intros Hp Hu Hq Hc Hf Hne Hlim. cbn [rfeed_loop]. destruct buf as [|b0 buf0]; [congruence|].
   rewrite Hp, Hu, Hq. change ((0 <? 0) && (0 <=? rin_flight s)) with false. cbv iota. rewrite Hf.
   destruct raw as [|l0 raw0].
-  - exfalso. change (rstrip_cr []) with (@nil N) in Hlim. unfold lenN in Hlim. cbn in Hlim. destruct (rlines s); lia.
+  - exfalso. unfold len1, lenN in Hlim. cbn in Hlim. destruct (rlines s); lia.
   - rewrite Hc.
-    destruct (match rlines s with [] => max_line (c_lim cfg) | _ => max_field (c_lim cfg) end <? lenN (rstrip_cr (l0 :: raw0))) eqn:E;
+    destruct (match rlines s with [] => max_line (c_lim cfg) | _ => max_field (c_lim cfg) end <? len1 (l0 :: raw0)) eqn:E;
       [reflexivity|lia].
 Qed.
 
@@ -255,7 +263,7 @@ Qed.
 Lemma rtoo_many_headers cfg f s buf a raw rest :
   rpayload s = None -> rupgraded s = false -> max_queue (c_lim cfg) = 0 -> rshould_close s = false ->
   find_lf buf = Some (raw, rest) -> buf <> [] -> rlines s <> [] ->
-  lenN (rstrip_cr raw) <= max_field (c_lim cfg) -> max_headers (c_lim cfg) < lenN (rlines s) + 1 ->
+  len1 raw <= max_field (c_lim cfg) -> max_headers (c_lim cfg) < lenN (rlines s) + 1 ->
   rfeed_loop (S f) cfg s buf a = (s, a, OErr EBadMessage).
 Proof.
   intros Hp Hu Hq Hc Hf Hne Hl Hlen Hcnt. cbn [rfeed_loop]. destruct buf as [|b0 buf0]; [congruence|].
@@ -264,8 +272,8 @@ Proof.
   assert (Hc2 : max_headers (c_lim cfg) <? lenN ((x :: xs) ++ [rstrip_cr raw]) = true).
   { rewrite lenN_app. unfold lenN at 2. cbn [length]. lia. }
   destruct raw as [|l0 raw0]; rewrite Hc.
-  - destruct (max_field (c_lim cfg) <? lenN (rstrip_cr [])) eqn:E; [lia|]. rewrite Hc2. reflexivity.
-  - destruct (max_field (c_lim cfg) <? lenN (rstrip_cr (l0 :: raw0))) eqn:E; [lia|]. rewrite Hc2. reflexivity.
+  - destruct (max_field (c_lim cfg) <? len1 []) eqn:E; [lia|]. rewrite Hc2. reflexivity.
+  - destruct (max_field (c_lim cfg) <? len1 (l0 :: raw0)) eqn:E; [lia|]. rewrite Hc2. reflexivity.
 Qed.
 
 (* ------------------------------------------------------------------ folded field values *)
